@@ -88,7 +88,7 @@ def recipe(r, d, maxd):
         return {'t': 'c', 'x': r.choice([None, True, False])}
     if k < 0.76:
         return {'t': 'np', 'k': r.choice(['int64', 'float64', 'arange', 'ones22', 'bool', 'strarr', 'float32', 'empty',
-                                          'subA', 'subB', 'masked']),
+                                          'subA', 'subB', 'masked', 'zerod_f', 'zerod_i', 'masked_m', 'strided']),
                 'x': r.randint(-10, 10)}
     if k < 0.93:
         m = r.choice(['f', 'f', 'i', 'nan', 'inf', '-inf', 'z', 'neg', 'arr', 'arr2'])
@@ -194,7 +194,11 @@ def build(rc, env):
                 'empty': lambda: np.array([]),
                 'subA': lambda: np.arange(abs(x) % 4).view(_arr_classes(np)[0]),
                 'subB': lambda: (np.ones((2, 2)) * x).view(_arr_classes(np)[1]),
-                'masked': lambda: np.ma.masked_array(np.arange(abs(x) % 4))}[k]()
+                'masked': lambda: np.ma.masked_array(np.arange(abs(x) % 4)),
+                'zerod_f': lambda: np.array(x / 4),                 # zero-dimensional arrays
+                'zerod_i': lambda: np.array(x),
+                'masked_m': lambda: np.ma.masked_array([x, 1, 2], mask=[0, 1, 0]),
+                'strided': lambda: np.arange(8)[::2] * x}[k]()
     if t in ('q', 'u'):
         u = None
         for name, power in rc['u']:
